@@ -141,8 +141,9 @@ def compile_unit(path, config="default", extra=(), repo=None, mem2reg=True, inli
         rel = path[len(repo or REPO) + 1:] if path.startswith((repo or REPO) + "/") else path
         victims = sorted(f.name for f in m0.defined_functions()
                          if f.internal and f.name not in inline_except and (rel not in KEEP_LOOP_HELPERS or not f.loops_headers()))
-        if not victims:
-            return base_js
+        # (no early return when there is nothing to inline: the same function-level normalisation - jump threading of
+        # short-circuit conditions - is applied to every unit, so that a unit is analysed in one form whether or not it
+        # happens to contain a helper)
         tag = hashlib.sha1((path + "|" + config + "|" + " ".join(extra) + "|inl+jt|" + ",".join(victims)).encode()).hexdigest()[:12]
         stem = os.path.join(wd, os.path.basename(path).replace(".", "_") + "_" + config + "_" + tag)
         js = stem + ".json"
